@@ -2,3 +2,4 @@ pub mod choices;
 pub mod grammar;
 pub mod inputs;
 pub mod lexspec;
+pub mod yrender;
